@@ -414,6 +414,13 @@ structure Flags where
   /-- the values `FileProcessTensor.compute_caps()` assigns to `attrs["writing"]` after its
       last cap write, in order (the only attribute writes it may contain) -/
   computeCapsTail : List Bool
+  /-- `import_process_tensor(…, 'simple')`: the value of `transformed` in the
+      `pt_file.get_mpo_tensor(step, …)` call whose result is passed to `pt.set_mpo_tensor`
+      (`simpleOfFile` models the copy of the stored, untransformed tensors) -/
+  importMpoTransformed : Bool
+  /-- … and the cap tensors are copied from the file (`get_cap_tensor` → `set_cap_tensor`),
+      not recomputed -/
+  importCopiesCaps : Bool
 
 /-! ## 5. Process tensors in memory -/
 
